@@ -886,17 +886,14 @@ impl ParserListener for Screen {
     }
 
     fn erase_in_line(&mut self, how: Option<u32>, _private: Option<bool>) {
-        self.dirty.insert(self.cursor.y);
-
         let how = how.unwrap_or(0);
         let interval: Box<dyn Iterator<Item = u32>> = match how {
             0 => Box::new(self.cursor.x..self.columns),
             1 => Box::new(0..=self.cursor.x),
             2 => Box::new(0..self.columns),
-            _ => {
-                panic!("invalid eras_in_line parameter");
-            } // Handle invalid `how` values if necessary
+            _ => return, // Unsupported selectors are ignored.
         };
+        self.dirty.insert(self.cursor.y);
 
         let line = self.buffer.entry(self.cursor.y).or_insert(HashMap::new());
         for x in interval {
